@@ -64,9 +64,13 @@ def wl_labels(tier):
             labs = np.empty((len(tabs), T), dtype=np.int64)
             costs = np.empty(len(tabs))
             for i in range(len(tabs)):
-                l, c = cla.assign_point_cluster_labels(tabs[i], beta)
-                labs[i] = [int(x) for x in l]
-                costs[i] = float(c)
+                try:
+                    l, c = cla.assign_point_cluster_labels(tabs[i], beta)
+                    labs[i] = [int(x) for x in l]
+                    costs[i] = float(c)
+                except Exception:       # a mode in which the kernel raises differs from the others
+                    labs[i] = -7
+                    costs[i] = np.nan
             res[(T, K, kind, bi)] = (labs, costs)
     return res
 
@@ -77,7 +81,7 @@ def lik_cases():
         bm = base_matrices(NW)
         for K in (1, 2, 3):
             thetas = [bm[k % len(bm)][1] * (1.0 + 0.5 * k) for k in range(K)]
-            for T in (1, 2, 5, 17):
+            for T in (1, 2, 5, 17) + ((600,) if (NW, K) in ((2, 3), (6, 2)) else ()):
                 rng = np.random.default_rng(1000 * NW + 10 * K + T)
                 X = np.round(rng.normal(size=(T, NW)) * 2, 3)
                 means = [np.round(rng.normal(size=NW), 3) for _ in range(K)]
@@ -92,14 +96,19 @@ def layouts(X):
     return {"C": np.ascontiguousarray(X), "F": np.asfortranarray(X), "strided": big[::2, ::2]}
 
 
-def wl_likelihood(perm_orders=False):
+def wl_likelihood(perm_orders=False, only_long=False):
     from fast_ticc import likelihood, numba_guard
     res = {}
     for (NW, K, T, thetas, means, X) in lik_cases():
+        if only_long and T < 600:
+            continue
         W = 2 if NW % 2 == 0 else 1
         for (ln, Xl) in layouts(X).items():
             m = make_model(thetas, means, W, K)
-            res[(NW, K, T, ln)] = np.array(likelihood.all_points_all_clusters_log_likelihood(m, Xl))
+            try:
+                res[(NW, K, T, ln)] = np.array(likelihood.all_points_all_clusters_log_likelihood(m, Xl))
+            except Exception:
+                res[(NW, K, T, ln)] = np.full((T, K), np.nan)
         if perm_orders:
             # the parallel loop must not depend on iteration order (no loop-carried state)
             base = res[(NW, K, T, "C")]
@@ -170,6 +179,13 @@ def mode_main(mode, arg, tier, seed):
                 continue
             numba.set_num_threads(n)
             out["threads"][n] = {k: v for k, v in wl_likelihood().items()}
+            # unsynchronised sharing between loop iterations is timing dependent: run the long tables
+            # several times free-running at this thread count (any deviating repeat is kept)
+            for rep in range(6):
+                again = wl_likelihood(only_long=True)
+                for k, v in again.items():
+                    if v.tobytes() != out["threads"][n][k].tobytes():
+                        out["threads"][n][k] = v
         numba.set_num_threads(top)
     out["runs"] = wl_runs(tier)
     with open(arg, "wb") as f:
@@ -284,7 +300,7 @@ def run(ctx):
         "three processes (JIT, NUMBA_DISABLE_JIT=1, numba unimportable): (i) labelling kernel on every table over "
         "{0,1,3}^(T*K), T*K<=6 x 12 betas (identical labels and cost) and over the real alphabet "
         "{0.1,0.7,-1.3,1e-9,1e9} for T*K<=4 (thorough <=6) x 3 betas (identical labels, cost within 1e-12); (ii) "
-        "likelihood table for NW in {1,2,6,40} x K in {1,2,3} x T in {1,2,5,17} x layouts {C, Fortran, strided view} "
+        "likelihood table for NW in {1,2,6,40} x K in {1,2,3} x T in {1,2,5,17} (+600 rows for two shapes, repeated 6 times free-running per thread count) x layouts {C, Fortran, strided view} "
         "in every mode and for numba thread counts {1,2,4,8,16}: within 1e-10 x scale of the Cholesky log-density, "
         "bitwise equal across thread counts; interpreted modes with the parallel loop's range replaced by every "
         "permutation (T<=5) / 3 structured orders: bitwise equal; (iii) complete scripted runs for every 4th "
